@@ -861,6 +861,21 @@ def _table(alph, J, tier, small=False):
     return B.Table(alts, us, pats)
 
 
+WORKER_RSS_LIMIT_MB = 1500.0
+
+
+def _rss_mb():
+    """resident memory of this worker process in MB (0 when /proc is not readable)."""
+    try:
+        with open('/proc/self/status') as fh:
+            for line in fh:
+                if line.startswith('VmRSS:'):
+                    return int(line.split()[1]) / 1024.0
+    except (OSError, ValueError, IndexError):
+        pass
+    return 0.0
+
+
 def run_task(task):
     rec = Rec()
     alph = B.alphabet(task['seed'])
@@ -1038,6 +1053,8 @@ def run_task(task):
         rec.sample(dict(part='avforms_gen', alts=alts, first=structs[task['structs'][0]], availability_forms=AVFORMS))
     else:
         raise ValueError(task['part'])
+    if _rss_mb() > WORKER_RSS_LIMIT_MB:
+        rec.retire = True       # every evaluation leaves some memory behind in the long-lived worker: hand over to a fresh one
     return rec.result()
 
 
